@@ -620,7 +620,9 @@ def micro_streams(ford, drv, rng, n, rep):
         rx = R.FortranReader.COM_RE if mark == "" else R._compile_docmark(mark)
         m = rx.match(s)
         reqs.append(["comscan", mark, s])
-        exp.append(["ok", str(m.start(4)) if m else "none"])
+        # where the comment starts: the comment is the group that closes last (a named or the only capturing group
+        # after a harmless rewrite, group 4 as the pattern is written today)
+        exp.append(["ok", str(m.start(m.lastindex or 0)) if m else "none"])
         sep = rng.choice(";,")
         reqs.append(["qsplit", sep, s])
         exp.append(["ok"] + U.quote_split(sep, s))
